@@ -134,7 +134,9 @@ class ProgramSession:
         if k == "recreate":
             return L >= 2 and (L - 1) * op["n"] + 1 <= MAXLEN and op["n"] >= 2
         if k == "match":
-            return wo.match_admissible(x, rx)
+            # 'loose': fixed points only have to be distinct (the code stretches two-point windows as a whole); used to
+            # reach integral_match while the working series is still the array the caller handed in
+            return wo.match_admissible(x, rx, 1 if op.get("loose") else 2)
         if k == "interpolate":
             if op["method"] in ("cubic", "spline") and L < 5:
                 return False
@@ -422,6 +424,10 @@ def make_machine(ctx, with_rejects=False, max_ops=10):
               alpha=st.sampled_from([None, 0.5, 1.0, 2.0]))
         def match(self, rule_, ref_rule, alpha):
             self._try(dict(op="match", rule=rule_, ref_rule=ref_rule, alpha=alpha))
+
+        @rule(rule_=st.sampled_from(["trapezoid", "rectangle"]), ref_rule=st.sampled_from([None, "trapezoid"]))
+        def match_dense(self, rule_, ref_rule):
+            self._try(dict(op="match", rule=rule_, ref_rule=ref_rule, alpha=None, loose=True))
 
         @rule(strategy=st.sampled_from(gens.STRATEGY_NAMES), n=st.integers(2, 6),
               rule_=st.sampled_from(["trapezoid", "rectangle"]), alpha=st.sampled_from([None, 0.5, 2.0]))
